@@ -106,9 +106,13 @@ def main():
                         order = ['inaccessible-or-deleted-destructor', 'const-member-without-initialiser', 'virtual-base']
                     elif 'copy_constructible' in wrong:
                         order = ['copy-ctor-nonconst-ref', 'inaccessible-or-deleted-destructor', 'rvalue-reference-member', 'virtual-base']
-                    # (a wrong 'destructible' is never excused: the recorded finding is about default/copy constructibility only)
+                    elif 'destructible' in wrong and 'virtual-base' in present and 'inaccessible-or-deleted-destructor' in present:
+                        # the most derived class destroys its virtual bases: their destructors count, whatever lies in between (recorded finding)
+                        order = ['virtual-base']
+                        cause = 'virtual-base-destructor'
+                    # (any other wrong 'destructible' is never excused: the other recorded finding is about default/copy constructibility only)
                     for feat in order:
-                        if feat in present:
+                        if feat in present and cause is None:
                             cause = feat
                             break
                 key = 'traits:%s' % (cause or ('+'.join(wrong)))
